@@ -225,9 +225,13 @@ def check_sessions(ctx, name, sessions, results, refs, chunk=60):
     return out
 
 
-def matches_variant(ctx, name, fixed, session, result, refs):
-    term, _ = session_term('session_matches', fixed, session, result, refs)
-    return not fw.kernel_bools(ctx, name, ['Model.Process'], [term], open_scope='nat_scope')
+def matches_variant(ctx, name, session, result, refs):
+    """Which named alternative of the model reproduces the whole session: 'pinned' (restore only after success),
+    'repaired' (content-keyed cache), or None."""
+    terms = [session_term('session_matches', False, session, result, refs)[0],
+             session_term('session_matches_repaired', True, session, result, refs)[0]]
+    bad = fw.kernel_bools(ctx, name, ['Model.Process'], terms, open_scope='nat_scope')
+    return 'pinned' if 0 not in bad else ('repaired' if 1 not in bad else None)
 
 
 # ------------------------------------------------------------------------------------------------------------
